@@ -144,6 +144,11 @@ func (h *Header) BucketHash(key []byte) uint {
 	n := uint64(h.NumBuckets)
 	r := (-n) % n
 	for u < r {
+		if u == 0 {
+			// hashUint64(0) == 0: a key whose hash is 0 would never leave this loop
+			// (Insert and Lookup would spin forever); it goes to bucket 0.
+			break
+		}
 		u = hashUint64(u)
 	}
 	return uint(u % n)
